@@ -303,6 +303,15 @@ def generalized_time_to_datetime(string):
                 string))
 
 
+def strftime_four_digit_year(date, fmt):
+    """``date.strftime(fmt)`` with ``%Y`` always written with four
+    digits (the C library does not pad years before 1000).
+
+    """
+
+    return date.strftime(fmt.replace('%Y', '{:04d}'.format(date.year)))
+
+
 def generalized_time_from_datetime(date):
     """Convert given ``datetime.datetime`` object `date` to an ASN.1
     generalized time string.
@@ -311,14 +320,14 @@ def generalized_time_from_datetime(date):
 
     if date.second == 0:
         if date.microsecond > 0:
-            string = date.strftime('%Y%m%d%H%M.%f').rstrip('0')
+            string = strftime_four_digit_year(date, '%Y%m%d%H%M.%f').rstrip('0')
         else:
-            string = date.strftime('%Y%m%d%H%M')
+            string = strftime_four_digit_year(date, '%Y%m%d%H%M')
     else:
         if date.microsecond > 0:
-            string = date.strftime('%Y%m%d%H%M%S.%f').rstrip('0')
+            string = strftime_four_digit_year(date, '%Y%m%d%H%M%S.%f').rstrip('0')
         else:
-            string = date.strftime('%Y%m%d%H%M%S')
+            string = strftime_four_digit_year(date, '%Y%m%d%H%M%S')
 
     if date.tzinfo is not None:
         if date.utcoffset():
@@ -367,9 +376,9 @@ def restricted_generalized_time_from_datetime(date):
         date -= date.utcoffset()
 
     if date.microsecond > 0:
-        string = date.strftime('%Y%m%d%H%M%S.%f').rstrip('0')
+        string = strftime_four_digit_year(date, '%Y%m%d%H%M%S.%f').rstrip('0')
     else:
-        string = date.strftime('%Y%m%d%H%M%S')
+        string = strftime_four_digit_year(date, '%Y%m%d%H%M%S')
 
     return string + 'Z'
 
